@@ -61,7 +61,11 @@ func (tr TemplatedRegexp) Expand(rule parser.Rule) (*regexp.Regexp, error) {
 }
 
 func (tr TemplatedRegexp) MustExpand(rule parser.Rule) *regexp.Regexp {
-	re, _ := tr.Expand(rule)
+	re, err := tr.Expand(rule)
+	if err != nil {
+		// Pattern expanded with fields of this rule is not a valid regexp, match nothing.
+		return regexp.MustCompile(`[^\s\S]`)
+	}
 	return re
 }
 
